@@ -18,6 +18,7 @@ def dispatch (line : String) : String :=
   | "replace" :: args => Driver.Expr.handleReplace (Driver.Expr.tokenize (" ".intercalate args))
   | "canon" :: args => Driver.Expr.handleCanon (Driver.Expr.tokenize (" ".intercalate args))
   | "itedictplan" :: args => Driver.Expr.handlePlan args
+  | "truth" :: args => Driver.Expr.handleTruth (Driver.Expr.tokenize (" ".intercalate args))
   | "meta" :: args => Driver.Expr.handleMeta (Driver.Expr.tokenize (" ".intercalate args))
   | "rules" :: args => Driver.Expr.handleRules (Driver.Expr.tokenize (" ".intercalate args))
   | _ => "bad-op"
